@@ -80,7 +80,7 @@ def toConformers (ids : List Nat) (xy : List (Int × Int)) (confs : Option (List
       | some l => addConformers ids l cs0
 
 /-- `{n: tuple(v) for n, v in enumerate(c.GetPositions(), 1)}` -/
-def keyed (ps : List P3) : List (Nat × P3) := ((List.range ps.length).map (· + 1)).zip ps
+def keyed (ps : List P3) : List (Nat × P3) := (List.range' 1 ps.length).zip ps
 
 /-- what `from_rdkit_molecule` takes from the conformers of a molecule of `n` atoms: the atoms' `xy` (`none` = left at the
 default, there is no conformer) and `_conformers` (`none` = attribute not set) -/
